@@ -224,8 +224,6 @@ def wf_bits(m, code_ok: bool | None = None) -> list:
     code    : the generated code can be produced (passed in: observed through get_model_code)"""
     import math
 
-    from pharmpy.basic import Expr
-
     bits = []
     ok = True
     for p in m.parameters:
